@@ -627,6 +627,15 @@ def r8_by_value(ctx):
     r8_settings_by_value(ctx)
 
 
+def r9_store_order(ctx):
+    """the hashed settings are a function of the requested values, not of
+    the order in which the request dictionary lists them: non-commuting
+    settings (model_key resets params_initial; range_x is judged against
+    the plateau switch) are stored in dependency order"""
+    from ..fitclauses import clause_store_order
+    clause_store_order(ctx)
+
+
 RULES = [
     ("C12-R1", "hash covers axes, preprocessing and every settings key; "
      "only the documented don't-cares are conditional", r1_coverage),
@@ -643,4 +652,6 @@ RULES = [
      "fact on every storing path)", r7_stored_hash_invalidated),
     ("C12-R8", "settings are stored by (deep) value: an in-place edit of a "
      "passed object cannot change a setting behind the hash", r8_by_value),
+    ("C12-R9", "the settings that are hashed do not depend on the order in "
+     "which a request lists them", r9_store_order),
 ]
